@@ -61,8 +61,11 @@ def run_trace(name, prog, ops, mode, exc="Injected"):
                     fut = built.nodes[entry].emit(val, metadata=md if md else None)
                     if fut is not None:
                         if not fut.done():
-                            raise RuntimeError("emit awaitable pending in a synchronous program: %s" % name)
-                        if fut.exception() is not None:
+                            # (a bounded zip hands a pending awaitable to a producer that is too far ahead; a synchronous
+                            # producer does not wait for it -- nothing else in these programs can be pending)
+                            if not any(nd["kind"] == "zip" and nd.get("m") for nd in prog):
+                                raise RuntimeError("emit awaitable pending in a synchronous program: %s" % name)
+                        elif fut.exception() is not None:
                             if not isinstance(fut.exception(), injected) and not (fail_at and isinstance(fut.exception(), RuntimeError)):
                                 raise fut.exception()
                             raised = True
@@ -218,6 +221,8 @@ def main():
                         ops2.append(("flush", e, tuple(fa)))
                 traces.append(run_trace(name, prog, ops2, a.mode))
     for name, prog in progs:
+        if a.what == "fail" and any(nd["kind"] == "zip" and nd.get("m") for nd in prog):
+            continue        # (a failure inside a pending awaitable cannot be observed by a producer that does not wait)
         plans = plans_for(prog, a.tier, rng) if a.what == "plain" else fail_plans_for(prog, a.tier, rng)
         if name.startswith("chain:") and name.count(">") >= 1 and a.what == "plain":
             # longer chains: thin the exhaustive part
